@@ -67,3 +67,163 @@ harnesses! {
     /// @meta props=C09 tier=quick kind=R timeout=300 mem=8 bounds="every current size, threshold and limit < 2^62"
     c09_policy_double_until_limited => policy_double_until_limited;
 }
+
+// ---------------------------------------------------------------------------------------
+// growth through the readers (kernels with a recording policy, real buffer-redux)
+// ---------------------------------------------------------------------------------------
+use crate::fak::FaState;
+use crate::fqk::{any_file, window, FqState};
+use crate::src::Src;
+use seq_io::{fasta, fastq};
+
+pub struct RecPolicy {
+    pub answer: Option<usize>,
+    pub asked: usize,
+    pub n: usize,
+}
+
+impl BufPolicy for RecPolicy {
+    fn grow_to(&mut self, current: usize) -> Option<usize> {
+        if self.n == 0 {
+            self.asked = current;
+        }
+        self.n += 1;
+        self.answer
+    }
+}
+
+fn content_is(b: &[u8], file: &[u8], from: usize) -> bool {
+    let mut ok = true;
+    let mut i = 0;
+    while i < file.len() {
+        if i < b.len() && b[i] != file[from + i] {
+            ok = false;
+        }
+        i += 1;
+    }
+    ok
+}
+
+/// K: `grow` asks the policy once with the current capacity and adopts its answer
+pub fn k_grow<N: Nd, const F: usize, const CAP: usize, const FASTQ: bool>(nd: &mut N) {
+    let file: [u8; F] = any_file::<N, F>(nd);
+    let refuse = nd.bool();
+    let m = nd.usize_in(CAP + 1, CAP + 4);
+    nd.note_num("cap", CAP as u64);
+    nd.note_num("policy_answer", if refuse { 0 } else { m as u64 });
+    let pol = RecPolicy { answer: if refuse { None } else { Some(m) }, asked: 0, n: 0 };
+    // completely filled buffer: the only situation in which the readers grow
+    let br = window::<F>(Src::plain(file, F), CAP, 0);
+    vassert!(br.buffer().len() == CAP, "C09 harness pre-state: full buffer");
+    if FASTQ {
+        let mut r = fastq::Reader::verif_from_parts(br, pol, fastq::VerifBufPos::new(0, 0, 0, 0, 0), 1, 1, 0, 1);
+        let res = r.verif_grow();
+        vassert!(r.policy().n == 1 && r.policy().asked == CAP, "C09 the policy is asked exactly once, with the current capacity");
+        let cap2 = r.verif_buf_reader().capacity();
+        match res {
+            Ok(()) => {
+                vassert!(!refuse, "C09 growth succeeds only if the policy permits it");
+                vassert!(cap2 == m, "C09 the size returned by the policy is adopted");
+            }
+            Err(fastq::Error::BufferLimit) => {
+                vassert!(refuse, "C09 a buffer-limit error only when the policy refuses");
+                vassert!(cap2 == CAP, "C09 a refused growth leaves the capacity unchanged");
+            }
+            Err(e) => {
+                vassert!(false, "C09 grow reports only the buffer limit");
+                std::mem::forget(e);
+            }
+        }
+        let b = r.verif_buf_reader().buffer();
+        vassert!(b.len() == CAP && content_is(b, &file, 0), "C09 growing keeps the buffered bytes");
+        cover!(refuse, "policy refused");
+        cover!(!refuse && m == CAP + 1, "slowly growing policy");
+        std::mem::forget(r);
+    } else {
+        let mut r = fasta::Reader::verif_from_parts(br, pol, 0, Vec::with_capacity(4), 1, 0, 1, 2);
+        let res = r.verif_grow();
+        vassert!(r.policy().n == 1 && r.policy().asked == CAP, "C09 the policy is asked exactly once, with the current capacity");
+        let cap2 = r.verif_buf_reader().capacity();
+        match res {
+            Ok(()) => {
+                vassert!(!refuse, "C09 growth succeeds only if the policy permits it");
+                vassert!(cap2 == m, "C09 the size returned by the policy is adopted");
+            }
+            Err(fasta::Error::BufferLimit) => {
+                vassert!(refuse, "C09 a buffer-limit error only when the policy refuses");
+                vassert!(cap2 == CAP, "C09 a refused growth leaves the capacity unchanged");
+            }
+            Err(e) => {
+                vassert!(false, "C09 grow reports only the buffer limit");
+                std::mem::forget(e);
+            }
+        }
+        let b = r.verif_buf_reader().buffer();
+        vassert!(b.len() == CAP && content_is(b, &file, 0), "C09 growing keeps the buffered bytes");
+        cover!(refuse, "policy refused");
+        cover!(!refuse && m == CAP + 1, "slowly growing policy");
+        std::mem::forget(r);
+    }
+}
+
+/// K: a policy installed in mid-stream takes over without disturbing any reader field
+pub fn k_set_policy<N: Nd, const F: usize, const CAP: usize>(nd: &mut N) {
+    let file: [u8; F] = any_file::<N, F>(nd);
+    let off = nd.usize_in(0, F - CAP);
+    let fq = FqState {
+        pos0: nd.usize_in(0, CAP),
+        pos1: nd.usize_in(0, CAP),
+        seq: nd.usize_in(0, CAP),
+        sep: nd.usize_in(0, CAP),
+        qual: nd.usize_in(0, CAP),
+        inc: nd.u8_in(0, 4),
+        line: nd.u64(),
+        byte: nd.u64(),
+        state: nd.u8_in(0, 3),
+    };
+    let br = window::<F>(Src::plain(file, F), CAP, off);
+    let r = crate::fqk::fq_reader(br, &fq);
+    let r2 = r.set_policy(RecPolicy { answer: None, asked: 0, n: 0 });
+    vassert!(r2.verif_buf_pos() == (fq.pos0, fq.pos1, fq.seq, fq.sep, fq.qual), "C09 set_policy keeps the record coordinates (fastq)");
+    vassert!(r2.verif_incomplete_pos() == fq.inc && r2.verif_state() == fq.state, "C09 set_policy keeps the parser state (fastq)");
+    vassert!(r2.verif_position() == (fq.line, fq.byte), "C09 set_policy keeps the file position (fastq)");
+    vassert!(r2.policy().n == 0, "C09 set_policy does not consult the policy");
+    let b = r2.verif_buf_reader().buffer();
+    vassert!(b.len() == CAP && content_is(b, &file, off) && r2.verif_buf_reader().capacity() == CAP, "C09 set_policy keeps the buffer (fastq)");
+    std::mem::forget(r2);
+    // fasta
+    let fa = FaState { start: nd.usize_in(0, CAP), search_pos: nd.usize_in(0, CAP), line: nd.u64(), byte: nd.u64(), state: nd.u8_in(0, 4) };
+    let q0 = nd.usize_in(0, CAP);
+    let mut v = Vec::with_capacity(4);
+    v.push(q0);
+    let br = window::<F>(Src::plain(file, F), CAP, off);
+    let r = crate::fak::fa_reader(br, &fa, v);
+    let r2 = r.set_policy(RecPolicy { answer: None, asked: 0, n: 0 });
+    vassert!(r2.verif_start() == fa.start && r2.verif_search_pos() == fa.search_pos && r2.verif_state() == fa.state, "C09 set_policy keeps the parser state (fasta)");
+    vassert!(r2.verif_seq_pos().len() == 1 && r2.verif_seq_pos()[0] == q0, "C09 set_policy keeps the line ends (fasta)");
+    vassert!(r2.verif_position() == (fa.line, fa.byte), "C09 set_policy keeps the file position (fasta)");
+    let b = r2.verif_buf_reader().buffer();
+    vassert!(b.len() == CAP && content_is(b, &file, off) && r2.verif_buf_reader().capacity() == CAP, "C09 set_policy keeps the buffer (fasta)");
+    cover!(fq.state == 2 && fa.state == 2, "mid-stream states");
+    std::mem::forget(r2);
+}
+
+pub fn k_grow_fq<N: Nd>(nd: &mut N) {
+    k_grow::<N, 6, 4, true>(nd)
+}
+pub fn k_grow_fa<N: Nd>(nd: &mut N) {
+    k_grow::<N, 6, 4, false>(nd)
+}
+pub fn k_set_policy_f6_c4<N: Nd>(nd: &mut N) {
+    k_set_policy::<N, 6, 4>(nd)
+}
+
+harnesses! {
+    @reg registry2;
+    /// @meta props=C09 tier=quick kind=K timeout=1500 mem=12 unwind=10 bounds="fastq::Reader::grow on a full buffer of capacity 4 (real buffer-redux) with a recording policy answering None or any size cap+1..=cap+4"
+    c09_grow_fq => k_grow_fq;
+    /// @meta props=C09 tier=quick kind=K timeout=1500 mem=12 unwind=10 bounds="fasta::Reader::grow on a full buffer of capacity 4 (real buffer-redux) with a recording policy answering None or any size cap+1..=cap+4"
+    c09_grow_fa => k_grow_fa;
+    /// @meta props=C09 tier=quick kind=K timeout=1500 mem=12 unwind=10 bounds="set_policy on both readers in every parser state with symbolic coordinates, window of capacity 4 at every offset of every 6-byte file"
+    c09_set_policy => k_set_policy_f6_c4;
+}
